@@ -142,6 +142,22 @@ def builtin_and_optional_panics(mf, oc, scratch, profile, qs, timeout_ms, info, 
         raise V.Inconclusive("engine B disagrees with the real string indexing on %d of %d vectors (%s), first: %r" % (len(mism), n, profile, mism[0]))
     for s_ in xsum:
         out += X.check_summary(s_, profile, qs, timeout_ms, V.seed(), "C17")
+    vsum = [X.summarize_var(xk, ws, kind) for ws, kind in X.var_shapes(tier)]
+    n, mism = X.var_validate(vsum, nat.eval, release)
+    info["validation_vectors"][profile + ":string-indexing-by-variable"] = n
+    if mism:
+        raise V.Inconclusive("engine B disagrees with the real string indexing (variable index) on %d of %d vectors (%s), first: %r" % (len(mism), n, profile, mism[0]))
+    for s_ in vsum:
+        out += X.check_var_summary(s_, profile, qs, timeout_ms, V.seed(), "C17")
+    import strrepeatkernels as R
+    rk = R.RepeatKernels(mf, oc, scratch.repo, seed=V.seed())
+    rsum = [rk.summarize(sh, n_) for sh, n_ in R.shapes(tier)]
+    n, mism = R.validate(rsum, nat.eval, release)
+    info["validation_vectors"][profile + ":string-repetition"] = n
+    if mism:
+        raise V.Inconclusive("engine B disagrees with the real string repetition on %d of %d vectors (%s), first: %r" % (len(mism), n, profile, mism[0]))
+    for s_ in rsum:
+        out += R.check_summary(s_, profile, qs, timeout_ms, V.seed(), "C17")
     # list built-ins on a shared list (len/push/remove/reverse/clear/clone/index_of/join incl. the receiver joined with itself)
     import listkernels as L, c13_main
     lk = L.ListKernels(mf, oc, scratch.repo, seed=V.seed())
@@ -164,12 +180,44 @@ def builtin_and_optional_panics(mf, oc, scratch, profile, qs, timeout_ms, info, 
         raise V.Inconclusive("engine B disagrees with the real map/filter bridge on %d of %d vectors (%s), first: %r" % (len(mism), n, profile, mism[0]))
     for s_ in bsum:
         lf += BR.check_summary(s_, profile, qs, timeout_ms, V.seed(), "C17")
+    ik = L.ListIndexKernels(lk)
+    isum = c13_main.index_summaries(ik, tier)
+    n, mism = L.index_validate(isum, nat.eval_raw, release)
+    info["validation_vectors"][profile + ":list-index-read"] = n
+    if mism:
+        raise V.Inconclusive("engine B disagrees with the real list indexing on %d of %d vectors (%s), first: %r" % (len(mism), n, profile, mism[0]))
+    for s_ in isum:
+        lf += L.index_check(s_, profile, qs, timeout_ms, V.seed(), "C17")
     # these witnesses are replayed here (their result is more than one value); run_profile skips findings already confirmed
     c13_main.confirm(lf, nat, release)
     for f in lf:
         f.native = [f.native]
         f.preconfirmed = True
     out += lf
+    # call trace: rendering of the call stack, and the frame discipline of a native call that fails
+    import tracekernels as T
+    tk = T.TraceKernels(mf, oc, scratch.repo, seed=V.seed())
+    info["functions"][profile].update(tk.encoded_functions())
+    rsum = [tk.render(l) for l in T.render_shapes(tier)]
+    csum = [T.summarize_call(tk, n_) for n_ in range(3)]
+    n1, m1 = T.render_validate(rsum, nat.eval_raw, release)
+    n2, m2 = T.call_validate(csum, nat.eval_raw, release)
+    info["validation_vectors"][profile + ":trace"] = n1 + n2
+    if m1 or m2:
+        raise V.Inconclusive("engine B disagrees with the real trace rendering / native call on %d vectors (%s), first: %r" % (len(m1) + len(m2), profile, (m1 + m2)[0]))
+    tf = []
+    for s_ in rsum:
+        tf += T.render_check(s_, profile, qs, timeout_ms, V.seed())
+    for s_ in csum:
+        tf += T.call_check(s_, profile, qs, timeout_ms, V.seed())
+    if tf:
+        res = nat.eval_raw([("t%d" % i, f.native_op, f.witness) for i, f in enumerate(tf)], release)
+        for i, f in enumerate(tf):
+            got = " ".join(res["t%d" % i].split())
+            f.native = [got]
+            f.confirmed = got == f.predicted_text and got != getattr(f, "expected_text", None)
+            f.preconfirmed = True
+    out += tf
     ker = K.Kernels(mf, oc, scratch.repo, seed=V.seed())
     ok_ = c12_main.OptKernels(ker, mf)
     for ins, iargs, kinds in c12_main.all_instances():
